@@ -37,6 +37,8 @@ class ClientAuthenticator:
         self.unixFDSupport = self._usesUnixSocketTransport(self.protocol)
         self.guid = None
         self.cookiedir = None  # used for testing only
+        # True between sending NEGOTIATE_UNIX_FD and the server's answer
+        self.negotiatingUnixFD = False
 
         self.authOrder = self.preference[:]
         self.authOrder.reverse()
@@ -118,13 +120,15 @@ class ClientAuthenticator:
             raise DBusAuthenticationFailed('Invalid guid in OK message')
         else:
             if self.unixFDSupport:
+                self.negotiatingUnixFD = True
                 self.sendAuthMessage(b'NEGOTIATE_UNIX_FD')
             else:
                 self.sendAuthMessage(b'BEGIN')
                 self.authenticated = True
 
     def _auth_AGREE_UNIX_FD(self, line):
-        if self.unixFDSupport:
+        if self.unixFDSupport and self.negotiatingUnixFD:
+            self.negotiatingUnixFD = False
             self.sendAuthMessage(b'BEGIN')
             self.authenticated = True
         else:
